@@ -161,7 +161,8 @@ def mk_order(order, shape):
 
 
 def get_offset(idx, strides):
-    return sum(ii * ss for ii, ss in zip(idx, strides))
+    # int(): narrow numpy integers (np.int8(20) * 8) would overflow
+    return sum(int(ii) * ss for ii, ss in zip(idx, strides))
 
 
 def _get_item(value, index):
